@@ -24,6 +24,7 @@ type Case struct {
 
 func run(r *enumx.Run, replay *enumx.ReplayCase) {
 	cryptoref.Rand = cryptoref.ConstReader(0x5A)
+	setLens(r.Thorough())
 	scs := allScenarios()
 	if replay != nil {
 		var c Case
@@ -31,20 +32,27 @@ func run(r *enumx.Run, replay *enumx.ReplayCase) {
 			r.Violation("machinery/bad-replay", err.Error(), nil)
 			return
 		}
-		for _, sc := range scs {
-			if sc.id != c.Scenario {
-				continue
-			}
-			fs, _ := sc.evaluate(c.Spare)
-			for _, f := range fs {
-				if f.key == replay.Key {
-					r.Violation(f.key, f.msg, c)
+		for pass := 0; pass < 2; pass++ {
+			for _, sc := range scs {
+				if sc.id != c.Scenario {
+					continue
 				}
+				fs, _ := sc.evaluate(c.Spare)
+				for _, f := range fs {
+					if f.key == replay.Key {
+						r.Violation(f.key, f.msg, c)
+					}
+				}
+				return
 			}
+			// a scenario of the thorough tier's length set
+			setLens(true)
+			scs = allScenarios()
 		}
+		r.Violation("machinery/unknown-scenario", c.Scenario, nil)
 		return
 	}
-	r.Rule("complete product, no sampling: every exported function of crypto, crypto/aeskw, crypto/padding, crypto/aescbcaead that takes []byte x every algorithm it supports (+ an unsupported constant and a junk name) x its success path and each failure path (wrong key size, wrong nonce size, wrong tag size, failed authentication of tag / ciphertext, invalid padding, invalid plaintext / ciphertext length, unknown algorithm, wrong key kind, message too long, wrong label, bad signature ...) x lengths 0,1,15,16,17,31,32,33 (key wrap 16,24,32,40) x spare-capacity layouts: every argument at once with spare 0,1,15,16,17,64 and each argument alone with spare 1,15,16,17,64 (AEAD dst also 160) x dst in {nil, empty, 4-byte prefix, input[:0]}. Every byte-slice argument, including the octets behind the jwk.Key, lies in one canary-filled arena; a case is a (scenario, layout) pair, distinct by construction, and non-trivial when some argument has spare capacity or is a destination.")
+	r.Rule("complete product, no sampling: every exported function of crypto, crypto/aeskw, crypto/padding, crypto/aescbcaead that takes []byte x every algorithm it supports (+ an unsupported constant and a junk name) x its success path and each failure path (wrong key size, wrong nonce size, wrong tag size, failed authentication of tag / ciphertext, invalid padding, invalid plaintext / ciphertext length, unknown algorithm, wrong key kind, message too long, wrong label, bad signature ...) x lengths 0,1,15,16,17,31,32,33 (thorough: every length 0..34 and 47,48,49,63,64,65; key wrap 16,24,32,40) x spare-capacity layouts: every argument at once with spare 0,1,15,16,17,64 and each argument alone with spare 1,15,16,17,64 (AEAD dst also 160) x dst in {nil, empty, 4-byte prefix, input[:0]}. Every byte-slice argument, including the octets behind the jwk.Key, lies in one canary-filled arena; a case is a (scenario, layout) pair, distinct by construction, and non-trivial when some argument has spare capacity or is a destination.")
 	r.Assume("Go slices give no way to write outside [0, cap): canaries cover len..cap of every argument, 32 guard bytes between arguments, and the arguments themselves")
 	r.Assume("aliasing is judged on the []byte values a call returns (whole capacity) against each argument's [0, cap); a returned jwk.Key or cipher.AEAD that keeps a reference to key material is outside the property (it is about writes)")
 	r.Assume("aeskw.Unwrap inputs below 16 bytes are not fed (it panics before touching anything: C07)")
@@ -59,6 +67,11 @@ func run(r *enumx.Run, replay *enumx.ReplayCase) {
 	var mu sync.Mutex
 	outcomes := map[string]int{}
 	perFn := map[string]int{}
+	type pending struct {
+		f finding
+		c Case
+	}
+	found := make([][]pending, len(scs)) // reported afterwards in scenario order: deterministic output
 	n := r.Parallel(len(scs), func(i int) {
 		sc := scs[i]
 		var cnt, nt int64
@@ -75,7 +88,7 @@ func run(r *enumx.Run, replay *enumx.ReplayCase) {
 			}
 			loc[out.kind]++
 			for _, f := range fs {
-				r.Violation(f.key, f.msg, Case{Scenario: sc.id, Spare: lay, Layout: layoutString(sc, lay)})
+				found[i] = append(found[i], pending{f, Case{Scenario: sc.id, Spare: lay, Layout: layoutString(sc, lay)}})
 			}
 		}
 		r.Count(cnt, nt)
@@ -87,6 +100,11 @@ func run(r *enumx.Run, replay *enumx.ReplayCase) {
 		perFn[sc.fn] += int(cnt)
 		mu.Unlock()
 	})
+	for _, ps := range found {
+		for _, p := range ps {
+			r.Violation(p.f.key, p.f.msg, p.c)
+		}
+	}
 	if n == len(scs) {
 		r.Space(fmt.Sprintf("%d scenarios (function x algorithm x path x length x dst variant) x all spare-capacity layouts", len(scs)))
 	} else {
